@@ -170,10 +170,10 @@ impl Maker {
     }
     fn make(&self, key: &[u8], iv: &[u8]) -> Obj {
         match self {
-            Maker::Blk(d) => Obj::Blk((d.mk)(Ctor::New, key, iv).expect("harness: ctor")),
-            Maker::Buf(d) => Obj::Buf((d.mk)(Ctor::New, key, iv).expect("harness: ctor")),
-            Maker::Stream(d) => Obj::Stream((d.mk)(Ctor::New, key, iv).expect("harness: ctor")),
-            Maker::Core(d) => Obj::Core((d.mk)(Ctor::New, key, iv).expect("harness: ctor")),
+            Maker::Blk(d) => Obj::Blk((d.mk)(Ctor::New, key, iv).expect("contract: constructor rejected a key/IV of the right length")),
+            Maker::Buf(d) => Obj::Buf((d.mk)(Ctor::New, key, iv).expect("contract: constructor rejected a key/IV of the right length")),
+            Maker::Stream(d) => Obj::Stream((d.mk)(Ctor::New, key, iv).expect("contract: constructor rejected a key/IV of the right length")),
+            Maker::Core(d) => Obj::Core((d.mk)(Ctor::New, key, iv).expect("contract: constructor rejected a key/IV of the right length")),
         }
     }
     fn gen_op(&self, rng: &mut Rng, b: usize, w: usize) -> Op {
